@@ -86,6 +86,9 @@ pub enum Op {
     /// close, cut the highest-id blob inside its last record header (or inside the blob header
     /// if it holds no record) so that the next start quarantines it, build + init
     DamageRst,
+    /// the same with `init_lazy`: if the damaged blob was the only one, the storage starts with
+    /// neither an active nor a closed blob
+    DamageRstLazy,
 }
 
 impl Op {
@@ -452,7 +455,7 @@ impl<K: HKey> World<K> {
                 }
                 res(self.init(op == Op::RstLazy).await)
             }
-            Op::DamageRst => {
+            Op::DamageRst | Op::DamageRstLazy => {
                 if let Err(e) = self.close().await {
                     return Outcome::Res(Res::Err, format!("close: {e:#}"));
                 }
@@ -460,7 +463,7 @@ impl<K: HKey> World<K> {
                 if self.snapshot_restarts {
                     self.restart_snapshot = Some(crate::tap::snapshot_blobs(&self.dir));
                 }
-                res(self.init(false).await)
+                res(self.init(op == Op::DamageRstLazy).await)
             }
         }
     }
